@@ -335,6 +335,10 @@ def closure_scan_py(cfg: dict, gen: dict) -> typing.List[dict]:
                     continue
                 if top in allowed_top and not resolves(top):
                     continue
+                if top in allowed_top:
+                    fails.append({"cause": "name|root-namespace-shadows-module-required-by-generated-code", "detail": "", "scope": (), "file": rel,
+                                  "what": f"{rel} imports `{mod}`, but the generated package for root namespace {top!r} shadows the module of that name"})  # fmt: skip
+                    continue
                 what = f"{rel} imports `{mod}` but no involved root namespace generates that module and it is not stdlib/numpy/pydsdl"
                 if top == "nunavut_support":
                     fails.append({"cause": "missing-nunavut_support", "detail": "", "scope": ("omit",), "file": rel, "what": what})
@@ -529,15 +533,19 @@ def classify_cc(d: dict, cfg: dict, mode: dict, names: dict, cache: dict, outdir
         for n in sorted(names["nonplain"], key=len, reverse=True):
             if n in m.group(1) and m.group(1) != n:
                 return {"cause": "name|member-declared-and-used-under-different-stropped-names", "detail": m.group(1).replace(n, "<name>"), "scope": ()}
-    # an identifier of the universe at the error location
+    if target == "cpp" and re.search(r"'size_t' (does not name a type|has not been declared)", msg) and re.search(r"\bsize_t index\(\) const|template<size_t I\b", line):
+        return {"cause": "unqualified-size_t", "detail": "", "scope": ("omit",), "neutralise": ["-include", "cstddef"]}
+    # an identifier of the universe at the error location.  The signatures are deliberately coarse (one per target and kind of
+    # name, the identifier itself goes into the description): which identifier of a family a run happens to draw, and in
+    # which position, must not change the signature.
     culprit = culprit_name(msg, line, tok, names)
     if culprit is not None:
         if macros is not None and culprit in macros():
             # used verbatim where a standard header (pulled in by the generated code) defines a macro of that name
-            return {"cause": "name|stdlib-macro", "detail": macro_family(culprit), "scope": ()}
+            return {"cause": "name|stdlib-macro-used-verbatim", "detail": "", "scope": (), "note": f"identifier {culprit!r} (macro family {macro_family(culprit)})"}
         if needs_stropping(culprit, target):
-            return {"cause": "name|reserved-not-stropped", "detail": name_class(culprit), "scope": ()}
-        return {"cause": "name|collision", "detail": culprit, "scope": ()}
+            return {"cause": "name|reserved-not-stropped", "detail": name_class(culprit), "scope": (), "note": f"identifier {culprit!r}"}
+        return {"cause": "name|collision-with-identifier-of-generated-code-or-std", "detail": name_class(culprit), "scope": (), "note": f"identifier {culprit!r}"}
     # a standard declaration is used without the header that declares it
     m = re.search(r"unknown type name '(\w+)'|^'(\w+)' (?:does not name a type|was not declared in this scope|has not been declared|undeclared)", msg)
     ms = re.search(r"'(\w+)' in namespace 'std' does not name|'(\w+)' is not a member of 'std'", msg)
@@ -605,6 +613,7 @@ def check_header(cfg: dict, mode: dict, outdirs: typing.List[str], hdr: str, nam
                 c["what"] = (
                     f"{os.path.relpath(f, outdirs[0]) if f.startswith('/') else f}:{loc.get('line', '?')}: {d.get('kind')}: {unq(d.get('message'))} "
                     f"{('[' + d['option'] + ']') if d.get('option') else ''}\n    | {line.strip()[:200]}"
+                    + (f"\n    {c['note']}" if c.get("note") else "")
                     + (f"\n    (seen behind neutralised {' + '.join(neutralised)})" if neutralised else "")
                 )
                 c["file"] = hdr
@@ -626,9 +635,11 @@ def check_header(cfg: dict, mode: dict, outdirs: typing.List[str], hdr: str, nam
 PY_DRIVER = r'''
 import sys, json, os
 spec = json.loads(sys.stdin.read())
-sys.path[:] = [p for p in sys.path if "site-packages" not in p] + spec["paths"]
+base = [p for p in sys.path if "site-packages" not in p]
+sys.path[:] = base + [spec["lib"]]
 import warnings, importlib, traceback
-import numpy, pydsdl  # the trusted base, loaded once; every module is then imported in a forked child of this state
+import numpy, numpy.typing, pydsdl  # the trusted base, loaded once; every module is then imported in a forked child of this state
+sys.path[:] = base + spec["paths"] + [spec["lib"]]
 results = {}
 for mod, path in spec["modules"]:
     r, w = os.pipe()
@@ -705,7 +716,7 @@ def pylib_dir() -> str:
 
 def run_py_driver(outdirs: typing.List[str], modules: typing.List[typing.Tuple[str, str]], extra_paths: typing.Sequence[str] = ()) -> dict:
     lib = pylib_dir()
-    spec = {"paths": list(outdirs) + list(extra_paths) + [lib], "outdirs": list(outdirs), "modules": modules}
+    spec = {"paths": list(outdirs) + list(extra_paths), "lib": lib, "outdirs": list(outdirs), "modules": modules}
     env = {"PATH": os.environ.get("PATH", "/usr/bin:/bin"), "PYTHONDONTWRITEBYTECODE": "1", "PYTHONHASHSEED": "0", "HOME": os.environ.get("HOME", "/tmp")}
     p = subprocess.run([PY, "-I", "-S", "-B", os.path.join(lib, "driver.py")], input=json.dumps(spec), capture_output=True, text=True, env=env, cwd=empty_cwd(), timeout=900)
     if p.returncode != 0:
@@ -717,6 +728,9 @@ def classify_py(kind: str, e: dict, cfg: dict, names) -> dict:
     """kind in {compile, import, warning}."""
     typ, msg = e.get("type") or e.get("cat"), e.get("msg", "")
     text = e.get("text", "")
+    shadow = sorted(names["roots"] & (set(sys.stdlib_module_names) | {"numpy", "pydsdl", "nunavut_support"}))
+    if shadow and kind == "import":
+        return {"cause": "name|root-namespace-shadows-module-required-by-generated-code", "detail": "", "scope": (), "note": f"root namespace {shadow[0]!r}"}
     if typ == "ModuleNotFoundError" and e.get("name") == "nunavut_support":
         return {"cause": "missing-nunavut_support", "detail": "", "scope": ("omit",), "neutralise": "support"}
     if typ in ("ModuleNotFoundError", "ImportError"):
@@ -725,7 +739,7 @@ def classify_py(kind: str, e: dict, cfg: dict, names) -> dict:
     toks = set(re.findall(r"[A-Za-z_][A-Za-z_0-9]*", text))
     hit = sorted(t for t in toks if t in names["all"] and needs_stropping(t, "py"))
     if typ == "SyntaxError" and hit:
-        return {"cause": "name|reserved-not-stropped", "detail": hit[0], "scope": ()}
+        return {"cause": "name|reserved-not-stropped", "detail": name_class(hit[0]), "scope": (), "note": f"identifier {hit[0]!r}"}
     return {"cause": "diag", "detail": f"{kind}|{typ}|{normalise_text(msg)}", "scope": ("omit",)}
 
 
@@ -770,8 +784,10 @@ def check_python(cfg: dict, gen: dict, names, support_provider: typing.Callable[
                 key = (c["cause"], c["detail"])
                 if key not in found:
                     rel = os.path.relpath(e.get("file") or path, gen["outdirs"][0]) if (e.get("file") or path).startswith("/") else e.get("file")
-                    c["what"] = f"{kind} of module {mod}: {e.get('type') or e.get('cat')}: {e.get('msg')} at {rel}:{e.get('line')}\n    | {e.get('text', '')[:200]}" + (
-                        f"\n    (seen behind neutralised {'+'.join(neutralised)})" if neutralised else ""
+                    c["what"] = (
+                        f"{kind} of module {mod}: {e.get('type') or e.get('cat')}: {e.get('msg')} at {rel}:{e.get('line')}\n    | {e.get('text', '')[:200]}"
+                        + (f"\n    {c['note']}" if c.get("note") else "")
+                        + (f"\n    (seen behind neutralised {'+'.join(neutralised)})" if neutralised else "")
                     )
                     c["file"] = os.path.relpath(path, gen["outdirs"][0])
                     c["cmd"] = cmd.replace("<module>", mod)
@@ -800,6 +816,8 @@ def names_of(u: dict) -> dict:
             ns = set(td["ns"]) | {td["name"]}
             for b in bodies_of(td):
                 ns |= {a["name"] for a in b["attrs"] if a["k"] in ("field", "const")}
+            for full in dsdlgen._refs_in(td["body"]):
+                ns |= set(full.split(".")[:-2])  # namespaces and short name of every referenced type
             per_type.append(([x.strip("_") for x in td["ns"]], f"{td['name'].strip('_')}_{td['major']}_{td['minor']}", ns))
     return {"all": alln, "roots": {r["name"] for r in u["roots"]}, "nonplain": {n for n in alln if name_class(n) != "plain"}, "per_type": per_type}
 
@@ -1039,8 +1057,8 @@ def directed_pool() -> dict:
                 chunks.append([n])
         for i, ch in enumerate(chunks):
             attrs = [_F(kinds[(i + j) % len(kinds)], n) for j, n in enumerate(ch)]
-            if len(attrs) < 2:
-                attrs.append(_F(_U8, "ok"))
+            # after every candidate name: a variable-length array (size_t count; std::vector) and a primitive (std::uint8_t)
+            attrs += [_F({"t": "varr", "elem": {"t": "uint", "bits": 16, "cast": "saturated"}, "cap": 2, "incl": True}, "zz_tail_array"), _F(_U8, "zz_tail")]
             types.append(_T(["pool", cls], f"S{i}", attrs))
             types.append(_T(["pool", cls], f"U{i}", attrs, union=True))
     return {"roots": [{"name": "pool", "types": types}]}
@@ -1063,6 +1081,14 @@ def directed_shapes() -> dict:
     types.append(_T(ns, "Ver", [_F(_U8, "x")], major=0, minor=1))
     types.append(_T(ns, "Ver", [_F(_U8, "x"), _F(_U8, "y")], major=255, minor=255))
     types.append(_T(ns, "TwoBools", [_F({"t": "bool"}, "p"), _F({"t": "bool"}, "q")], union=True))
+    types.append(_T(ns, "EmptyWithPort", [], port=96))
+    types.append(_T(ns, "OnlyPadding", [{"k": "void", "bits": 8}]))
+    types.append(_T(ns, "OnlyPaddingExt", [{"k": "void", "bits": 3}, {"k": "void", "bits": 64}], sealed=False, extent_extra=7))
+    types.append(_T(ns, "OnlyConstants", [_K(_U8, "K", "7"), _K({"t": "float", "bits": 32, "cast": "saturated"}, "F", "0.5")]))
+    types.append(_S(ns, "PaddingSvc", [{"k": "void", "bits": 8}], [{"k": "void", "bits": 8}, _K({"t": "bool"}, "X", "false")], port=101))
+    types.append(_T(ns, "OnlyBoolArrays", [_F({"t": "farr", "elem": {"t": "bool"}, "n": 9}, "fixed"), _F({"t": "varr", "elem": {"t": "bool"}, "cap": 9, "incl": True}, "variable")]))
+    types.append(_T(ns, "OnlyFloats", [_F({"t": "float", "bits": 16, "cast": "saturated"}, "h"), _F({"t": "float", "bits": 64, "cast": "truncated"}, "d")]))
+    types.append(_T(ns, "OnlyBool", [_F({"t": "bool"}, "flag")]))
     w = dsdlgen.WIDE_TYPES
     types.append(_T(ns + ["wide"], "Prims", [_F(t, f"p{i}") for i, t in enumerate(w[:7])]))
     for i in range(7, len(w), 3):
@@ -1088,7 +1114,15 @@ def directed_shapes() -> dict:
     return {"roots": [{"name": "shp", "types": types}, {"name": "shq", "types": qt}]}
 
 
-DIRECTED = {"extremes": directed_extremes, "macros": directed_macros, "pool": directed_pool, "shapes": directed_shapes}
+def directed_shadow(root: str) -> typing.Callable[[], dict]:
+    """A root namespace named like a module the generated Python code itself imports."""
+    return lambda: {"roots": [{"name": root, "types": [_T([root], "T", [_F(_U8, "x")])]}]}
+
+
+DIRECTED = {
+    "extremes": directed_extremes, "macros": directed_macros, "pool": directed_pool, "shapes": directed_shapes,
+    "root-named-numpy": directed_shadow("numpy"), "root-named-pydsdl": directed_shadow("pydsdl"),
+}  # fmt: skip
 
 
 # ---------------------------------------------------------------------------------------------------------------------
